@@ -213,7 +213,9 @@ var (
 	scanBuf = make([]byte, 1<<17)
 )
 
-func scan() []gInfo {
+func scan() []gInfo { return scanWith("verifc39.(*Driver).park(") }
+
+func scanWith(parkMarker string) []gInfo {
 	scanMu.Lock()
 	defer scanMu.Unlock()
 	var buf []byte
@@ -254,13 +256,42 @@ func scan() []gInfo {
 		}
 		g := gInfo{id: id, status: st, topFunc: top}
 		g.worker = strings.Contains(body, "created by github.com/keep-network/keep-core/"+workerMarker)
-		g.inPark = strings.Contains(body, "verifc39.(*Driver).park(")
+		g.inPark = strings.Contains(body, parkMarker)
 		g.inGet = strings.Contains(body, "pkg/generator.(*ParameterPool[") && strings.Contains(body, ".GetNow(")
 		g.inCtor = strings.HasPrefix(top, "github.com/keep-network/keep-core/pkg/generator.NewParameterPool[") &&
 			!strings.Contains(top, ".func")
 		out = append(out, g)
 	}
 	return out
+}
+
+// CurGoid returns the id of the calling goroutine.
+func CurGoid() int64 { return curGoid() }
+
+// WorkerGoroutines inspects a dump of all goroutines and reports those created
+// by Scheduler.startWorker: how many exist, how many of them are parked in a
+// channel receive inside a function whose name contains parkMarker, how many
+// are blocked in a select / channel send elsewhere, and how many are in any
+// other (transient) state. sig identifies the set of goroutines and states.
+func WorkerGoroutines(parkMarker string) (alive, parkedN, blocked, transient int, sig string) {
+	var parts []string
+	for _, g := range scanWith(parkMarker) {
+		if !g.worker {
+			continue
+		}
+		alive++
+		switch {
+		case g.inPark && g.status == "chan receive":
+			parkedN++
+		case !g.inPark && (g.status == "select" || g.status == "chan send"):
+			blocked++
+		default:
+			transient++
+		}
+		parts = append(parts, fmt.Sprintf("%d:%s:%v", g.id, g.status, g.inPark))
+	}
+	sort.Strings(parts)
+	return alive, parkedN, blocked, transient, strings.Join(parts, ",")
 }
 
 type workerScan struct {
